@@ -39,7 +39,8 @@ def field_src(f):
     name = "F"; pre = ""
     jt = {"plain": 'json:"f"', "rename": 'json:"renamed_f"', "omitempty": 'json:"f,omitempty"', "string": 'json:"f,string"',
           "dash": 'json:"-"', "notag": None, "unexported": 'json:"f"', "ignore": 'json:"f"', "rename_omitempty": 'json:"other,omitempty"',
-          "noname_omitempty": 'json:",omitempty"', "noname_string": 'json:",string"', "noname_both": 'json:",omitempty,string"'}[tag]
+          "noname_omitempty": 'json:",omitempty"', "noname_string": 'json:",string"', "noname_both": 'json:",omitempty,string"',
+          "name_string": 'json:"string"', "name_omitempty": 'json:"omitempty"'}[tag]
     if tag == "unexported":
         name = "f"
     if tag == "ignore":
